@@ -198,6 +198,35 @@ CaseResult run_bucketing(const RunCtx &ctx, TapeReader &t, unsigned size_hint) {
     o.span_multiple_edge = TLS;
     o.pow2_span_edge = true;
     std::vector<K> keys = gen_keys<K>(t, o, meta);
+    // bucket-boundary clusters: with probability 1/3 up to three runs of 2*Eps+6 consecutive keys are planted so that they START exactly
+    // on (or one below / above) a bucket boundary first + i*step of the table the index will build: a segment then begins right at
+    // the boundary, which is where a mis-computed bucket number shows (the span, hence step, is not changed by the insertion)
+    if (!ctx.x("xkeys") && keys.size() >= 2 && keys.size() <= 50000 && t.chance(1, 3)) {
+        unsigned __int128 first = keys.front(), span = (unsigned __int128) keys.back() - keys.front(), step;
+        if ((TLS & (TLS - 1)) == 0) step = (unsigned __int128) 1 << (sizeof(K) * 8 - (64 - __builtin_clzll(TLS)) + 1);
+        else step = std::max<unsigned __int128>((span / TLS) + (span % TLS > 0), 1);
+        uint64_t nb = (uint64_t) std::min<unsigned __int128>(span / step, 1000000);
+        size_t planted = 0;
+        for (int c = 0; c < 3 && nb >= 1; ++c) {
+            unsigned __int128 b = first + step * (1 + t.below(nb)) + t.below(3) - 1;
+            size_t len = 2 * Eps + 6;
+            if (b <= first || b + len >= (unsigned __int128) keys.back()) continue;
+            for (size_t j = 0; j < len; ++j) keys.push_back((K) (b + j));
+            ++planted;
+        }
+        if (planted) {
+            std::sort(keys.begin(), keys.end());
+            meta.has_dup = std::adjacent_find(keys.begin(), keys.end()) != keys.end();
+            meta.n = keys.size();
+            meta.chunks = chunk_count(keys.size(), meta.threads);
+            meta.seams.clear();
+            for (size_t i = 1; i < meta.chunks; ++i) meta.seams.push_back(i * (keys.size() / meta.chunks));
+            meta.recipe += " BOUNDARY_CLUSTERS(" + std::to_string(planted) + ")";
+            keys.shrink_to_fit();
+        }
+    } else if (!ctx.x("xkeys")) {
+        t.below(1);
+    }
     std::ostringstream head;
     head << "BucketingPGMIndex<" << type_name<K>() << "," << Eps << "," << TLS << "," << (int) TLB << "," << type_name<F>() << ">";
     fill_desc(ctx, res, head.str(), keys, meta);
